@@ -15,6 +15,7 @@
 #include "proto.h"
 
 #include <signal.h>
+#include <sys/mman.h>
 #include <sys/wait.h>
 #include <unistd.h>
 
@@ -54,6 +55,7 @@ static void install_crash_reporting() {
     __sanitizer_set_death_callback(on_death);
 #endif
     signal(SIGSEGV, on_signal); signal(SIGBUS, on_signal); signal(SIGFPE, on_signal); signal(SIGABRT, on_signal);
+    signal(SIGALRM, on_signal);    // the watchdog of a per-field child: reported like a crash of the call that was running
 }
 
 static void c05_set_now(const std::string& s) { g_now = s; }
@@ -134,6 +136,7 @@ struct IField {
     virtual std::string arr(const std::string& op, size_t sz, ll s, ll s2, const std::vector<ll>& X, const std::vector<ll>& Y,
                             const std::vector<ll>& R0) const = 0;
     virtual std::string dot(size_t sz, const std::vector<ll>& X, const std::vector<ll>& Y) const = 0;
+    virtual std::string vinit(const std::vector<ull>& cs) const = 0;
 };
 
 template <class TT>
@@ -268,6 +271,15 @@ struct FieldT : IField {
         delete[] x; delete[] y;
         return H((ll)r);
     }
+    // init(Rep&, const Vector&): the vector holds prime-field *elements* (GFqDom<TT>(P) representation) of the integers cs
+    std::string vinit(const std::vector<ull>& cs) const override {
+        GFqDom<TT> Zp((UTT)P, (UTT)1);
+        std::vector<TT> V(cs.size());
+        for (size_t i = 0; i < cs.size(); ++i) Zp.init(V[i], (int64_t)cs[i]);
+        E r = 0;
+        F().init(r, V);
+        return H((ll)r);
+    }
     static int open_devnull() { if (!freopen("/dev/null", "w", stderr)) return -1; return 0; }
 };
 
@@ -326,6 +338,16 @@ static void line_dot(const FS& f, size_t sz, const std::vector<ll>& X, const std
     fputs(o.c_str(), stdout);
 }
 
+static void line_vin(const FS& f, const std::vector<ull>& cs) {
+    IField* F = field(f);
+    std::string o = "vin " + f.str() + ' ' + vp::hex_ull(cs.size());
+    for (ull c : cs) o += ' ' + vp::hex_ull(c);
+    g_now = o;
+    o += " = " + F->vinit(cs) + "\n";
+    g_now.clear();
+    fputs(o.c_str(), stdout);
+}
+
 static void line_gf2(int a, int b, int c) {
     GF2 F;
     std::string s;
@@ -380,7 +402,7 @@ static void gen_field_cases(const FS& f, bool quick, vp::Rng& rng, bool arrays, 
     ll q = F->q(), mo = F->mOne();
     if (q <= 9 || (q <= 16 && f.C == 0)) {
         for (ll a = 0; a < q; ++a) for (ll b = 0; b < q; ++b) for (ll c = 0; c < q; ++c) line_ops(f, a, b, c);
-    } else if (q <= 64 || (!quick && q <= 256)) {
+    } else if (q <= 64 || (!quick && q <= 160)) {
         for (ll a = 0; a < q; ++a) for (ll b = 0; b < q; ++b) {
             line_ops(f, a, b, (ll)rng.below((uint64_t)q));
             if (((a + b) & 7) == 0) { line_ops(f, a, b, 0); line_ops(f, a, b, mo); line_ops(f, a, b, q - 1); }
@@ -398,6 +420,53 @@ static void gen_field_cases(const FS& f, bool quick, vp::Rng& rng, bool arrays, 
         }
         int nr = quick ? 60 : 600;
         for (int i = 0; i < nr; ++i) line_ops(f, (ll)rng.below((uint64_t)q), (ll)rng.below((uint64_t)q), (ll)rng.below((uint64_t)q));
+    }
+    if (f.K >= 2) {
+        // init from a polynomial over the prime field: every degree 0 … 2k+2 (k-1, k, k+1 are the branch boundary of the
+        // reduction modulo the defining polynomial), leading coefficient 1 and p-1, three fillings, with and without
+        // stored leading zeros; the zero polynomial (empty / stored zeros) and multiples of the defining polynomial
+        std::vector<std::vector<ull>> vl;
+        for (ull d = 0; d <= 2 * f.K + 2; ++d) for (int lead = 0; lead < 2; ++lead) for (int fill = 0; fill < 3; ++fill) {
+            std::vector<ull> cs(d + 1);
+            for (ull i = 0; i < d; ++i) cs[i] = fill == 0 ? 0 : fill == 1 ? f.P - 1 : rng.below(f.P);
+            cs[d] = lead ? f.P - 1 : 1;
+            vl.push_back(cs);
+            if (fill == 2) { cs.push_back(0); cs.push_back(0); vl.push_back(cs); }
+        }
+        {   // the defining polynomial itself (as the object reports it), X * it, (p-1) * it
+            std::string d = F->dump();
+            ull irr = strtoull(d.c_str() + d.find(' ', d.find(' ', d.find(' ') + 1) + 1) + 1, nullptr, 16);
+            std::vector<ull> fp; for (ull x = irr; x; x /= f.P) fp.push_back(x % f.P);
+            vl.push_back(fp);
+            std::vector<ull> xf(fp); xf.insert(xf.begin(), 0); vl.push_back(xf);
+            std::vector<ull> mf(fp); for (ull& c : mf) c = c * (f.P - 1) % f.P; vl.push_back(mf);
+        }
+        vl.push_back(std::vector<ull>());
+        vl.push_back(std::vector<ull>(1, 0));
+        vl.push_back(std::vector<ull>(3, 0));
+        // a crash of one init must not lose the others: the block runs in children that resume after the crashed line
+        size_t* prog = (size_t*)mmap(nullptr, sizeof(size_t), PROT_READ | PROT_WRITE, MAP_SHARED | MAP_ANONYMOUS, -1, 0);
+        size_t start = 0;
+        while (prog != MAP_FAILED && start < vl.size()) {
+            fflush(stdout);
+            pid_t pid = fork();
+            if (pid == 0) {
+                g_report_crash = true;
+                for (size_t i = start; i < vl.size(); ++i) { *prog = i; line_vin(f, vl[i]); }
+                fflush(stdout);
+                _exit(0);
+            }
+            int st = 0;
+            waitpid(pid, &st, 0);
+            if (WIFEXITED(st) && WEXITSTATUS(st) == 0) break;
+            if (!(WIFEXITED(st) && (WEXITSTATUS(st) == 77 || WEXITSTATUS(st) == 78))) {
+                std::string o = "vin " + f.str() + ' ' + vp::hex_ull(vl[*prog].size());
+                for (ull c : vl[*prog]) o += ' ' + vp::hex_ull(c);
+                o += " = CRASH\n"; fputs(o.c_str(), stdout);
+            }
+            start = *prog + 1;
+        }
+        if (prog != MAP_FAILED) munmap(prog, sizeof(size_t));
     }
     if (!arrays) return;
     std::vector<ll> g = grid(q, mo, rng, 4);
@@ -495,6 +564,7 @@ static void generate(const std::string& tier, uint64_t seed) {
         pid_t pid = fork();
         if (pid == 0) {
             g_report_crash = true;
+            alarm(quick ? 90 : 900);       // watchdog: a broken field can make the library's own searches loop forever
             vp::Rng frng(fseed);
             gen_field_cases(f, quick, frng, arrays, zero_sz);
             fflush(stdout);
@@ -509,7 +579,7 @@ static void generate(const std::string& tier, uint64_t seed) {
     fflush(stdout);
     {
         pid_t pid = fork();
-        if (pid == 0) { g_report_crash = true; gen_ext_cases(quick, rng); fflush(stdout); _exit(0); }
+        if (pid == 0) { g_report_crash = true; alarm(quick ? 300 : 3000); gen_ext_cases(quick, rng); fflush(stdout); _exit(0); }
         int st = 0;
         waitpid(pid, &st, 0);
         if (!(WIFEXITED(st) && (WEXITSTATUS(st) == 0 || WEXITSTATUS(st) == 77 || WEXITSTATUS(st) == 78))) fputs("ext 0 0 0 0 = CRASH\n", stdout);
@@ -548,6 +618,12 @@ int main(int argc, char** argv) {
                 std::vector<ll> X(sz), Y(sz);
                 for (size_t i = 0; i < sz; ++i) { X[i] = a.SW(7 + i); Y[i] = a.SW(7 + sz + i); }
                 line_dot(f, sz, X, Y);
+            } else if (k == "vin" && parse_fs(a, 0, f) && a.n() >= 7) {
+                size_t n = (size_t)a.W(6);
+                if (a.n() != 7 + n) { vp::emit(a, "BADLINE"); continue; }
+                std::vector<ull> cs(n);
+                for (size_t i = 0; i < n; ++i) cs[i] = a.W(7 + i);
+                line_vin(f, cs);
             } else if (!ext_line(a)) vp::emit(a, "BADLINE");
         } catch (...) { vp::emit(a, "EXC"); }
     }
